@@ -33,7 +33,7 @@ Section C05.
 
   Notation pl := (plan_of sc c0).
   Notation t := (out_trace (run sc c0)).
-  Notation pobjs := (found_in c0 (cand_of sc c0)).
+  Notation pobjs := (found_in sc c0 (cand_of sc c0)).
 
   Lemma wf_nd : locals_nodup sc.
   Proof. destruct HWF as [W _]. exact W. Qed.
@@ -41,7 +41,7 @@ Section C05.
   (* ---- the plan ------------------------------------------------------------------------------- *)
   Lemma c05_prune_c0 cj : In (pobj_of_live cj) (pl_prune pl) -> fo c0 (c_id cj) = Some cj /\ In (c_id cj) (prev_of c0).
   Proof.
-    intros H. destruct (bp_prune_valid sc (locals_of sc) pobjs cj H) as [X _].
+    intros H. destruct (bp_prune_valid sc (live_crds sc c0) (locals_of sc) pobjs cj H) as [X _].
     apply found_in_In in X. destruct X as [X1 X2]. split; [exact X2|].
     unfold cand_of in X1. apply (proj1 (sortn_In _ _)) in X1. apply (proj1 (diffn_In _ _ _)) in X1. tauto.
   Qed.
@@ -49,7 +49,7 @@ Section C05.
   Lemma c05_prune_live e : In e (map p_id (pl_prune pl)) -> exists ce, In (pobj_of_live ce) (pl_prune pl) /\ c_id ce = e.
   Proof.
     intros H. apply in_map_iff in H. destruct H as [p [<- Hp]].
-    destruct (bp_anatomy sc (locals_of sc) pobjs) as [layers [cyc [_ [_ [_ [EP _]]]]]].
+    destruct (bp_anatomy sc (live_crds sc c0) (locals_of sc) pobjs) as [layers [cyc [_ [_ [_ [EP _]]]]]].
     pose proof Hp as Hp'. rewrite plan_of_eq, EP in Hp'. apply filter_In in Hp'. destruct Hp' as [Hp' _].
     unfold pruneA in Hp'. apply in_map_iff in Hp'. destruct Hp' as [c [<- _]].
     exists c. split; [exact Hp|reflexivity].
@@ -58,14 +58,14 @@ Section C05.
   Lemma c05_disj e : In e (map p_id (pl_prune pl)) -> ~ In e (apply_ids pl).
   Proof.
     intros H Ha.
-    apply (bp_disj sc (locals_of sc) pobjs (locals_of_NoDup sc wf_nd) (pobjs_NoDup sc c0) (pobjs_disj sc c0) e Ha).
+    apply (bp_disj sc (live_crds sc c0) (locals_of sc) pobjs (locals_of_NoDup sc wf_nd) (pobjs_NoDup sc c0) (pobjs_disj sc c0) e Ha).
     apply in_map_iff in H. destruct H as [p [<- Hp]]. apply in_map.
-    exact (bp_prune_sub sc (locals_of sc) pobjs p Hp).
+    exact (bp_prune_sub sc (live_crds sc c0) (locals_of sc) pobjs p Hp).
   Qed.
 
   Lemma c05_local p l : In p (pl_apply pl) -> p_local p = Some l -> l_id l = p_id p.
   Proof.
-    intros Hp E. destruct (bp_apply_is_local sc (locals_of sc) pobjs p Hp) as [l' [-> _]].
+    intros Hp E. destruct (bp_apply_is_local sc (live_crds sc c0) (locals_of sc) pobjs p Hp) as [l' [-> _]].
     cbn in E. injection E as <-. reflexivity.
   Qed.
 
@@ -130,7 +130,7 @@ Section C05.
       assert (PC : forall cj, In (pobj_of_live cj) (pl_prune pl) -> fo c0 (c_id cj) = Some cj)
         by (intros cj Hcj; apply (c05_prune_c0 cj Hcj)).
       pose proof (k_run_tasks sc c0 pl (locals_of sc) e ce ED Hce EK (c05_disj e He) UI PC c05_local prev
-                    (body_tasks sc pl) (task_ok_body sc (locals_of sc) pobjs) (body_tasks_no_set sc pl)
+                    (body_tasks sc pl) (task_ok_body sc (live_crds sc c0) (locals_of sc) pobjs) (body_tasks_no_set sc pl)
                     (pre_tasks sc c0 s4) (start_Iv e ce s4 Hce SO)) as [I1 [_ D1]].
       rewrite tasks_of_body in E.
       destruct (run_tasks_app sc pl (locals_of sc) prev (body_tasks sc pl) [TInvSet] (pre_tasks sc c0 s4)) as [[X1 X2]|X].
